@@ -7,4 +7,7 @@ CONSTANTS
   AllOffs = FALSE
   EdgeTods = FALSE
   Seed = 1
+  E2EYears = {}
+  HistLen = 0
+  HistN = 12
 INVARIANTS CalendarOK EmitCase
